@@ -54,6 +54,9 @@ def operator_context_cases(ctx: Ctx, backend: str, opts, fraction: int):
            ("index_guarded", "num", lambda J, E: (f"({J}.hits()[1] if {J}.hits().Count() > 1 else -1)" if J else f"({E}.{C}('A')[1].nTrk() if {E}.{C}('A').Count() > 1 else -1)")), ("range_sum", "num", lambda J, E: f"Range(0, {i(J, E)}).Sum()"),
            ("tuple_index", "num", lambda J, E: f"({x(J, E)}, {i(J, E)})[1]"), ("dict_index", "num", lambda J, E: f"{{'p': {x(J, E)}, 'q': {i(J, E)}}}['p']"),
            ("select_sum", "num", lambda J, E: f"{seq(J, E)}.Select(lambda v: v * 2).Sum()"),
+           # differences of counts that go negative, compared and divided (a count is a signed int, as in python)
+           ("count_diff", "num", lambda J, E: (f"(({J}.hits().Count() - {J}.trkPts().Count() - 2) / 2)" if J else f"(({E}.{C}('A').Count() - {E}.{C}('B').Count() - 2) / 2)")),
+           ("count_diff_cmp", "bool", lambda J, E: (f"({J}.hits().Count() - 3 > -1)" if J else f"({E}.{C}('A').Count() - {E}.{C}('B').Count() > -1)")),
            # rounding functions of values far outside the int range (MeV-scale quantities squared): the value is what Python's float gives
            ("round_large", "num", lambda J, E: f"(floor({x(J, E)} * 100000000.0) + round({x(J, E)} * 300000000.0) - trunc({x(J, E)} * 1000.0) * ceil({x(J, E)} * 1000000.0))")]
     out = []
@@ -107,6 +110,22 @@ def run(ctx: Ctx) -> int:
         frac = ctx.pick(9 if backend == "atlas" else 27, 1)
         cases = operator_context_cases(ctx, backend, opts, frac)
         ctx.count("operator_context_pairs", len(cases))
+        diff.differential(ctx, eng, cases, judge.on_result)
+    # the same parameter name bound again and again, nested and side by side, with an outer variable used after an inner lambda
+    # that rebinds its name (the shapes in which a careless rewrite captures a variable)
+    from .. import evgen
+    for backend in sch.BACKENDS:
+        s = sch.fixed(backend)
+        C = s["main"]["coll"]
+        A, B = f"e.{C}('A')", f"e.{C}('B')"
+        T = [f"ds.Select(lambda e: {A}.Where(lambda x: x.pt() > 1.0).Select(lambda x: {B}.SelectMany(lambda x: x.trkPts()).Where(lambda v: v > x.pt()).Count()))",
+             f"ds.Select(lambda e: {A}.Where(lambda x: x.pt() > 1.0).Select(lambda x: {B}.Select(lambda x: x.pt()).Where(lambda v: v > x.eta()).Count()))",
+             f"ds.Select(lambda e: {A}.Select(lambda x: x.pt()).Where(lambda x: x > 5.0).Select(lambda x: {B}.Select(lambda x: x.eta()).Where(lambda y: y < x).Count()))",
+             f"ds.Select(lambda e: {A}.Where(lambda x: x.pt() > 0.0).Where(lambda x: x.eta() > 0.0).Select(lambda x: x.tracks().SelectMany(lambda x: x.d0s()).Where(lambda x2: x2 > x.pt()).Select(lambda d: d + x.eta())))",
+             f"ds.Select(lambda e: ({A}.Select(lambda x: x.pt()), {A}.Select(lambda x: {B}.Where(lambda x: x.pt() > 10.0).Select(lambda y: x.pt() - y.pt())), {B}.Select(lambda x: x.eta())))",
+             f"ds.SelectMany(lambda e: {A}).Where(lambda e: e.pt() > 2.0).Select(lambda e: e.tracks().Select(lambda e: e.pt()).Where(lambda t: t > e.eta()).Sum())"]
+        cases = [diff.Case(backend, t, evgen.gen_events(s, ctx.rng("samename", backend, i), 6), diff.members_used(s, t), tag={"features": {"same_parameter_name_nesting": 2, f"t{i}": 1}, "query": t}) for i, t in enumerate(T)]
+        ctx.count("same_name_nesting_cases", len(cases))
         diff.differential(ctx, eng, cases, judge.on_result)
     judge.settle()
     decided = ctx.counters["events_decided"]
